@@ -155,7 +155,7 @@ func (f *Fixture) Stop() error {
 	select {
 	case err := <-done:
 		return err
-	case <-time.After(90 * time.Second):
+	case <-time.After(40 * time.Second):
 		return fmt.Errorf("engine shutdown hung (regatta event dispatcher vs NodeHost.Close)")
 	}
 }
